@@ -26,6 +26,10 @@ func propC14(c *Ctx) {
 	c.ruleC14CycleGuard()
 	c.ruleC14NameIsPath()
 	c.ruleC14RecursionOnlyForCycles()
+	c.ruleWriteLengthCheck("C14-WRITE-LENGTH-CHECK")
+	if m := c.E1Base(); m != nil {
+		c.ruleQuotedEscapes(m, "C14-QUOTED-ESCAPES")
+	}
 	c.ruleNextDirectiveRecognised("C14-NEXT-DIRECTIVE") // an INCLUDE after an implicit Description must be seen (and so refused, read or reported)
 }
 
@@ -944,4 +948,87 @@ func (c *Ctx) validatedBeforeStatE8(f *Fn) (*types.Func, string) {
 		return nil, "no path reaches os.Stat"
 	}
 	return validator, ""
+}
+
+// ---------- a short-write test measures what was written ----------
+
+// ruleWriteLengthCheck: `n, err := w.Write(A)` followed by a comparison of n with len(B) is a test for a short write
+// only if B is what was written. When A is changed (cleaned, converted) and B is not, the test fails for every input on
+// which the two lengths differ, and a valid INCLUDE is refused with a failure that is neither a recursion nor a missing
+// file.
+func (c *Ctx) ruleWriteLengthCheck(rule string) {
+	r := c.R
+	r.Rule(rule, "wherever the count returned by a Write(A) is compared with len(B), A and B are the same value (up to a []byte/string conversion): a short-write test that measures something else than what was written rejects valid input (the hash of the include stack is computed this way for every INCLUDE)", 1)
+	strip := func(f *Fn, e ast.Expr) string {
+		e = ast.Unparen(e)
+		for {
+			call, ok := e.(*ast.CallExpr)
+			if !ok || len(call.Args) != 1 {
+				break
+			}
+			if tv, ok := f.Pkg.TypesInfo.Types[call.Fun]; !ok || !tv.IsType() {
+				break
+			}
+			e = ast.Unparen(call.Args[0])
+		}
+		return c.stableExpr(f, e, nil)
+	}
+	n := 0
+	for _, f := range c.libFns() {
+		pk := f.Pkg
+		ast.Inspect(f.Decl.Body, func(nd ast.Node) bool {
+			as, ok := nd.(*ast.AssignStmt)
+			if !ok || len(as.Lhs) != 2 || len(as.Rhs) != 1 {
+				return true
+			}
+			call, ok := ast.Unparen(as.Rhs[0]).(*ast.CallExpr)
+			if !ok || len(call.Args) != 1 {
+				return true
+			}
+			cal := callee(pk, call)
+			if cal == nil || (cal.Name() != "Write" && cal.Name() != "WriteString") {
+				return true
+			}
+			nid, ok := as.Lhs[0].(*ast.Ident)
+			if !ok || nid.Name == "_" {
+				return true
+			}
+			nobj := pk.TypesInfo.Defs[nid]
+			if nobj == nil {
+				nobj = pk.TypesInfo.Uses[nid]
+			}
+			written := strip(f, call.Args[0])
+			ast.Inspect(f.Decl.Body, func(m ast.Node) bool {
+				be, ok := m.(*ast.BinaryExpr)
+				if !ok || (be.Op != token.EQL && be.Op != token.NEQ && be.Op != token.LSS && be.Op != token.GTR) {
+					return true
+				}
+				for _, pair := range [][2]ast.Expr{{be.X, be.Y}, {be.Y, be.X}} {
+					id, ok := ast.Unparen(pair[0]).(*ast.Ident)
+					if !ok || pk.TypesInfo.Uses[id] != nobj {
+						continue
+					}
+					lc, ok := ast.Unparen(pair[1]).(*ast.CallExpr)
+					if !ok || len(lc.Args) != 1 {
+						continue
+					}
+					if lid, ok := lc.Fun.(*ast.Ident); !ok || lid.Name != "len" {
+						continue
+					}
+					n++
+					key := fmt.Sprintf("%s | %s vs %s", f.Name(), exprString(call), exprString(pair[1]))
+					if measured := strip(f, lc.Args[0]); measured == written {
+						r.Ok(rule, key, "the length compared is that of what was written", c.pos(be.Pos()))
+					} else {
+						r.Bad(rule, key, "the count of "+exprString(call)+" is compared with the length of something else ("+exprString(lc.Args[0])+"): whenever the two lengths differ the function reports a failure although nothing failed", c.pos(be.Pos()))
+					}
+				}
+				return true
+			})
+			return true
+		})
+	}
+	if n == 0 {
+		r.Ok(rule, "library", "no write count is compared with a length", "")
+	}
 }
